@@ -16,7 +16,8 @@ def check(ctx):
         "body call and released on every return and unwind path; one in_span/enter_on_poll around the inner block whose "
         "output is the result; no catch_unwind); R4 name: constant = configured / bare identifier, default = "
         "type_name_of(f) with f nested in the function that opens the span, `::f` sliced off; R5 properties: keys in "
-        "order, literal values constant with braces unescaped, formatted values format!() over the arguments.")
+        "order, literal values constant with braces unescaped, formatted values format!() over the arguments; R6 `properties` together with "
+        "`enter_on_poll` does not compile, in either order of the arguments (compile-fail witnesses).")
     ctx.not_decided = ("equality of return values and side-effect order for ALL bodies (semantic equivalence: the rules "
                        "show the body is embedded once, unmodified in its calls, in a wrapper that adds only drops at "
                        "scope end); drop order of unused by-value arguments (not claimed by the property); what is "
@@ -24,3 +25,7 @@ def check(ctx):
     facts = ctx.facts("X")
     tracemacro.check_all(ctx, facts)
     tracemacro.macro_inventory(ctx, ctx.facts("E"))
+    # "over all signatures accepted by the macro": an argument combination whose template has nowhere to put the properties must
+    # be rejected, whatever the order of the arguments (two compile-fail witnesses with compiling twins, asked of rustc itself)
+    from .. import witness
+    witness.run(ctx, "R6", ["trace_props_then_poll", "trace_poll_then_props"])
